@@ -22,6 +22,9 @@ def sh(cmd, cwd=None, timeout=3600, env=None):
     return p.returncode, p.stdout
 
 head = sh("git -C /repo rev-parse HEAD")[1].strip()
+if os.environ.get("VERIF_SNAPSHOT") and os.path.exists(os.path.join(os.environ["VERIF_SNAPSHOT"], "REPO_BASE")):
+    # a frozen /verif snapshot goes with the /repo commit it was taken at
+    head = open(os.path.join(os.environ["VERIF_SNAPSHOT"], "REPO_BASE")).read().strip()
 sh("git checkout -q -- . && git clean -fdq -e _build && git checkout -q --detach %s" % head, cwd=wt)
 patch = os.path.join(sdir, "patch.diff")
 
@@ -58,7 +61,8 @@ if not check_only:
     rc, out = demo(); res["demo_passes_on_clean"] = rc == 0; res["demo_clean_tail"] = out[-200:]
 # run our check in isolation
 copy = "/tmp/vseed_%s" % prop.lower()
-sh("mkdir -p %s && rsync -a --delete --exclude .git --exclude replays --exclude 'evidence' /verif/ %s/" % (copy, copy))
+src = os.environ.get("VERIF_SNAPSHOT", "/verif").rstrip("/")     # a frozen copy of /verif while other work edits the live tree
+sh("mkdir -p %s && rsync -a --delete --exclude .git --exclude replays --exclude 'evidence' %s/ %s/" % (copy, src, copy))
 os.makedirs(copy + "/replays", exist_ok=True); os.makedirs(copy + "/evidence", exist_ok=True)
 sh("git checkout -q -- . && git apply %s" % patch, cwd=wt)
 t = time.time()
